@@ -105,8 +105,7 @@ class Graph:
         """what command e writes to `out` when it reads `files` (dict path->content or missing)"""
         if out in s.ddtext: return s.ddtext[out]
         acc = (b'generator' if e.generator else e.eval_command().encode()) + b'\0' + out.encode() + b'\0'
-        for p in e.reads():
-            acc += files.get(p, '<missing>').encode('latin1') + b'\0'
+
         return 'H:%016x' % fnv(acc)
     def clean_contents(s, sources):
         """contents of every buildable node after a from-scratch build of `sources` (dict)"""
@@ -264,6 +263,7 @@ def inline_dyndep(g):
         if e.dyndep and e.dyndep in g2.dd_info and e.out0 in g2.dd_info[e.dyndep]:
             io, ii, rs = g2.dd_info[e.dyndep][e.out0]
             e.imp = e.imp + [x for x in ii if x not in e.manifest_ins()]
+            e.hidden = [x for x in e.hidden if x not in ii]
             e.outs = e.outs + io; e.n_imp_out += len(io)
             e.restat = e.restat or rs
             e.dyndep = None
